@@ -190,9 +190,12 @@ _DKG_RULE = ("full protocol executions with a deterministic in-process scheduler
 
 CONFIG["C07"] = dict(
     lean_modules=["Props.C07"], generators=["C07"], level="proof", rule=_DKG_RULE, trusted_base=BLS_TB,
-    technique="Lean 4 proof (shape of End results over the state-machine models) + differential run of every honest node + agreement predicates on real executions",
+    technique="Lean 4 proof (commutation of reorderable deliveries, invariants, congruence up to complaint-table order, schedule independence of End; shape of End results) + differential run of every honest node + agreement predicates on real executions",
     level_text="Theorems for every state: Qual End returns keys only when not disqualified, no complaint unanswered, keys = those of the stored valid vector, share non-zero; the End verdict is a function of (disqualified, complaints, vector, share); Joint End fails beyond t disqualified dealers. "
-               "Network-level agreement between two honest receivers is NOT yet a theorem (partial): it is exercised by randomized schedules against the model and predicates.",
+               "Schedule quantifier (Feldman-VSS-Qual, participant other than the dealer, every crypto record): any two deliveries the network may reorder (different senders, or one sender's private and broadcast channel) commute "
+               "(delivery_pair_commutes: both orders disqualified, or the same state up to the order of the complaint table); the invariants used are preserved by every delivery and timeout; the state after a round is independent of the delivery order "
+               "(round_order_independent, for any two orders with the same stream per sender and channel); End returns the same verdict and keys for every delivery order of the three rounds (end_result_order_independent). "
+               "Partial: the relation between two different honest receivers of one execution (their private inputs differ) and the dealer-side instance inside Joint-Feldman are exercised by randomized and exhaustive short schedules against the model and by the agreement predicates.",
     level_note="Lean kernel + correspondence; reliable broadcast and round synchrony are assumptions of the property, implemented by the scheduler",
     assumptions=["reliable broadcast, round-synchronous delivery, at most t Byzantine participants"],
 )
@@ -201,6 +204,8 @@ CONFIG["C08"] = dict(
     technique="Lean 4 proof (blame targets, monotone disqualification, fault => disqualification lemmas, plain Feldman VSS invariant) + differential run + fairness predicates on real executions",
     level_text="Theorems for every state and message: an instance only ever blames the sender of the handled message or its dealer; timeouts/End only blame the dealer; disqualification is monotone and makes End fail; "
                "unanswered complaint, > t complaints, missing / late / malformed vector each disqualify; plain Feldman VSS returns keys only with a valid stored vector and a share passing the check against it (invariant over all call sequences of a non-dealer). "
+               "own_complaint_at_most_once: over every sequence of deliveries and timeouts an honest participant broadcasts its complaint at most once (so it is never flagged for a duplicate: defect class F9); share_vector_any_order and "
+               "complaint_answer_any_order: the two historically defective orders (F9, F10) give the same state in either order. "
                "That honest senders never trigger the blame branches in every schedule is exercised by the runs, not yet a theorem (partial).",
     level_note="Lean kernel + correspondence",
     assumptions=["reliable broadcast, round-synchronous delivery, at most t Byzantine participants"],
